@@ -265,8 +265,12 @@ class Gen:
             g = r.choice(ints)
             gcol = ("col", g[0], g[1], INT)
             other = r.choice(ints)
-            # (count(col), not count(*): an outer count(*) over a derived table that computes count(*) is the
-            # recorded finding Q13)
+            if other == g and len(ints) > 1:
+                other = r.choice([c for c in ints if c != g])
+            # (count(col), not count(*), and never an aggregate of the grouping column itself: an outer aggregate
+            # f(x.d1) over a derived table that passes d1 = e through and also computes f(e) -- count(*) and count(*),
+            # count(b) and count(b) -- is the same expression node as the inner one and returns its value: recorded
+            # finding Q13)
             sel = [(gcol, "d1", INT), (("agg", "count", ("col", other[0], other[1], INT), INT), "d2", INT),
                    (("agg", r.choice(["sum", "min", "max"]), ("col", other[0], other[1], INT), INT), "d3", INT)]
             sub = dict(base, sel=[(e, n) for e, n, _ in sel], grp=[gcol], agg=True)
